@@ -272,7 +272,8 @@ type merged struct {
 
 func runParent(p Property, scs []Sc, tier string, seed int64, n int, evidencePath, only string) int {
 	start := time.Now()
-	tmp, err := os.MkdirTemp(scratchBase(), "vrun-"+p.ID+"-")
+	reapStaleScratch()
+	tmp, err := os.MkdirTemp(scratchBase(), fmt.Sprintf("vrun-%s-p%d-", p.ID, os.Getpid()))
 	if err != nil {
 		fmt.Fprintf(os.Stderr, "ENGINE-ERROR: %v\n", err)
 		return 2
@@ -605,6 +606,36 @@ func anySplit(scs []Sc) bool {
 }
 
 func round2(f float64) float64 { return float64(int64(f*100)) / 100 }
+
+// reapStaleScratch removes the scratch directories (visited-state tables; in /dev/shm they are RAM) of runs whose
+// process no longer exists - a run that was killed cannot remove its own.
+func reapStaleScratch() {
+	ents, err := os.ReadDir(scratchBase())
+	if err != nil {
+		return
+	}
+	for _, e := range ents {
+		n := e.Name()
+		if !e.IsDir() || !strings.HasPrefix(n, "vrun-") {
+			continue
+		}
+		i := strings.LastIndex(n, "-p")
+		if i < 0 {
+			continue
+		}
+		j := strings.Index(n[i+2:], "-")
+		if j < 0 {
+			continue
+		}
+		pid, err := strconv.Atoi(n[i+2 : i+2+j])
+		if err != nil || pid <= 0 {
+			continue
+		}
+		if _, err := os.Stat(fmt.Sprintf("/proc/%d", pid)); os.IsNotExist(err) {
+			os.RemoveAll(filepath.Join(scratchBase(), n))
+		}
+	}
+}
 
 func scratchBase() string {
 	if d := os.Getenv("VERIF_SCRATCH"); d != "" {
